@@ -51,6 +51,9 @@ type params struct {
 	Timeout   time.Duration `json:"timeout"`
 	HalfOpen  int           `json:"half_open,omitempty"` // unifier: admitted probes
 	SuccessTh int           `json:"success_th,omitempty"`
+	// Managed: the unification breaker is driven the way its user drives it, through the
+	// unifier's EndpointManager (RecordFailure / RecordSuccess / GetCircuitBreaker(url).Allow)
+	Managed bool `json:"managed,omitempty"`
 }
 
 // health
@@ -140,6 +143,17 @@ func (b *unifierB) Success()                { b.cb.RecordSuccess() }
 func (b *unifierB) Failure()                { b.cb.RecordFailure() }
 func (b *unifierB) Advance(d time.Duration) { b.cb.VerifShift(d) }
 
+// unifier breaker behind the EndpointManager
+type managedB struct {
+	m   *unifier.EndpointManager
+	url string
+}
+
+func (b *managedB) Ask() bool               { return b.m.GetCircuitBreaker(b.url).Allow() }
+func (b *managedB) Success()                { b.m.RecordSuccess(b.url) }
+func (b *managedB) Failure()                { b.m.RecordFailure(b.url, fmt.Errorf("scripted failure")) }
+func (b *managedB) Advance(d time.Duration) { b.m.GetCircuitBreaker(b.url).VerifShift(d) }
+
 func newBreaker(p params) (breaker, func(), error) {
 	switch p.Kind {
 	case "health":
@@ -149,14 +163,24 @@ func newBreaker(p params) (breaker, func(), error) {
 		b, err := newEngine()
 		return b, func() {}, err
 	default:
+		if p.Managed {
+			cfg := unifier.DefaultConfig()
+			cfg.CircuitBreaker = unifier.CircuitBreakerConfig{Enabled: true, FailureThreshold: p.Threshold,
+				SuccessThreshold: p.SuccessTh, OpenDuration: p.Timeout, HalfOpenRequests: p.HalfOpen}
+			return &managedB{m: unifier.NewEndpointManager(cfg, hx.QuietLogger()), url: "http://c08.invalid:11434"}, func() {}, nil
+		}
 		cb := unifier.NewCircuitBreaker(unifier.CircuitBreakerConfig{Enabled: true, FailureThreshold: p.Threshold,
 			SuccessThreshold: p.SuccessTh, OpenDuration: p.Timeout, HalfOpenRequests: p.HalfOpen})
 		return &unifierB{cb: cb}, func() {}, nil
 	}
 }
 
-func healthParams() params { return params{Kind: "health", Threshold: health.DefaultCircuitBreakerThreshold, Timeout: health.DefaultCircuitBreakerTimeout} }
-func engineParams() params { return params{Kind: "engine", Threshold: 5, Timeout: health.DefaultCircuitBreakerTimeout} }
+func healthParams() params {
+	return params{Kind: "health", Threshold: health.DefaultCircuitBreakerThreshold, Timeout: health.DefaultCircuitBreakerTimeout}
+}
+func engineParams() params {
+	return params{Kind: "engine", Threshold: 5, Timeout: health.DefaultCircuitBreakerTimeout}
+}
 
 // ---------------------------------------------------------------------------
 // reference automaton (set of possible abstract states)
@@ -484,6 +508,9 @@ func unifierConfigs() []params {
 		for _, h := range []int{1, 3} {
 			for _, s := range []int{1, h} {
 				out = append(out, params{Kind: "unifier", Threshold: th, Timeout: 60 * time.Second, HalfOpen: h, SuccessTh: s})
+				if th == 2 {
+					out = append(out, params{Kind: "unifier", Threshold: th, Timeout: 60 * time.Second, HalfOpen: h, SuccessTh: s, Managed: true})
+				}
 			}
 		}
 	}
@@ -541,7 +568,7 @@ func genCase(t *rapid.T) Case {
 	default:
 		h := rapid.IntRange(1, 4).Draw(t, "halfopen")
 		p = params{Kind: "unifier", Threshold: rapid.IntRange(1, 6).Draw(t, "threshold"), Timeout: 60 * time.Second,
-			HalfOpen: h, SuccessTh: rapid.IntRange(1, h).Draw(t, "successth")}
+			HalfOpen: h, SuccessTh: rapid.IntRange(1, h).Draw(t, "successth"), Managed: rapid.Bool().Draw(t, "managed")}
 	}
 	n := rapid.IntRange(1, 60).Draw(t, "len")
 	ops := make([]byte, n)
